@@ -1179,7 +1179,7 @@ func cmdC27(prefix string, shards int, out string, nrandom int) {
 	agree, disagree := 0, 0
 	var bodyFeeds int64
 	corpusSet := map[string]bool{}
-	var disSamples []map[string]any
+	disSamples := []map[string]any{}
 	readShards(prefix, shards, func(path string) {
 		var rows []c27Row
 		hx.ReadJSON(path, &rows)
